@@ -114,7 +114,7 @@ func main() {
 		p.GenSC, p.GenSF = []chain.AbsOut{{600000, "B"}}, []chain.AbsOut{{7000, "B"}, {3000, "B"}}
 		cfg := chain.BaseConfig(p)
 		cfg.Addrs = []string{"B"}
-		cfg.Templates, cfg.Defects = []string{"sf", "form2"}, []string{"inblock"}
+		cfg.Templates, cfg.Defects = []string{"sf", "form2"}, []string{"inblock", "formation"}
 		cfg.Sizes, cfg.FormRH, cfg.SFSplits = []int{200}, [][2]int{{250024, 25}}, []int{3000}
 		cfg.WinStarts, cfg.WinLens = []int{1}, []int{2}
 		cfg.MaxHeight, cfg.MaxTxns, cfg.MaxReverts, cfg.NoPost = 3, 2, 0, true
